@@ -710,6 +710,14 @@ def make_api_module(I, registry):
             return True
         return False
 
+    @nf("sym_list")
+    def _sym_list(I_, args, kw):
+        """sym_list(n, lambda j: item, key=(...)): the list [item(0), ..., item(n-1)] for symbolic n"""
+        n, f = args[0], args[1]
+        if isinstance(n, int):
+            return [I_.call(f, [j], {}) for j in range(n)]
+        return I_.bm.SymList(n, lambda j: I_.call(f, [j], {}), kw.get("key"))
+
     @nf("is_symbolic")
     def _is_sym(I_, args, kw):
         return isinstance(args[0], Sym)
